@@ -40,6 +40,10 @@ def run(ctx):
     c08.r81(ctx)
     # time-changed notifications are non-decreasing only if the event list hands out the pending minimum, also after a cancellation
     # (heap discipline and observers: shared rules with C01)
+    # the warm-up notification "at the warm-up time", the refusal "warm-up before start" and the replication end come from the replication's
+    # time accessors (shared rule with C02 / C03 / C06 / C11)
+    ctx.uses('experiment')
+    S.replication_frame(ctx, 'R4.12')
     from . import c01
     ctx.uses('eventlist')
     for cname_ in ctx.prog.subclasses('EventListInterface'):
